@@ -330,3 +330,8 @@ _upd('C11',
      CLAIMED['C11'][1] + ' Document level: parse(format(c)) has the same inputs, outputs and the same gates (as a permutation) for every '
      'well-formed printable circuit.',
      'Layout independence for arbitrary hand-written text is exercised by exact parser correspondence and the layout search, not proved (partial).')
+
+_upd('C06',
+     CLAIMED['C06'][1] + ' End to end: the Circuit object built from a decoded solution (modelled, compared with _get_circuit_by_model on every run) '
+     'has inputs 0..n-1 in order, one output per requested output, and computes the table wherever it is defined.',
+     'pysat absent: shim solver (DPLL / z3, models re-checked); the solver is a parameter of the theorem. Time-limit path and DB shortcut not modelled.')
